@@ -278,6 +278,24 @@ Definition sp_conn_close (i o : tree) : bool :=
   (length (t_list (t_nth 1 o)) =? Z.to_nat (t_int (t_nth 0 i)))%nat &&
   (t_int (t_nth 2 o) =? 1) && (t_int (t_nth 3 o) =? 1) && (t_int (t_nth 4 o) =? 1).
 
+(* ------------------------------------------------------------------ fn 9: Close while another goroutine waits in NextPackage *)
+(* input (variant cancelAfter) output (close-returned [consumer-result]); variant 0 logical channel, 1 Conn.Close,
+   2 channel 0 with a peer that never answers the logout.  The waiting consumer holds the read lock (rd = 1). *)
+Definition run_close_waits (i : tree) : tree :=
+  let variant := t_int (t_nth 0 i) in
+  let ca := t_bool (t_nth 1 i) in
+  let s := run_all fuel (set_rd (sys0 4 10 (variant =? 2) (variant =? 1) false []) 1) in
+  if ca then
+    (* its context is cancelled: the only ready case of its select, it returns and releases the read lock *)
+    let r := match next_package (mkN false [] [] 0 0 true false) true with r :: _ => code_tree r | [] => code_tree NBlock end in
+    TL [of_bool (closer_done (run_all fuel (release s))); r]
+  else TL [of_bool (closer_done s)].
+
+(* "Close itself returns in bounded time"; the cancelled consumer gets the error of its context *)
+Definition sp_close_waits (i o : tree) : bool :=
+  (t_int (t_nth 0 o) =? 1) &&
+  (if t_bool (t_nth 1 i) then tree_eqb (t_nth 1 o) (TL [TI 1]) else true).
+
 (* ------------------------------------------------------------------ dispatch *)
 Definition run (fn : Z) (i : tree) : tree :=
   match fn with
@@ -289,6 +307,7 @@ Definition run (fn : Z) (i : tree) : tree :=
   | 6 => run_close_fill i
   | 7 => run_conn_close i
   | 8 => run_close_race i
+  | 9 => run_close_waits i
   | _ => tbad
   end.
 
@@ -302,5 +321,6 @@ Definition spec (fn : Z) (i o : tree) : bool :=
   | 6 => sp_close_fill i o
   | 7 => sp_conn_close i o
   | 8 => sp_close_race i o
+  | 9 => sp_close_waits i o
   | _ => false
   end.
